@@ -123,6 +123,7 @@ THEOREMS = [
     "OllamaVerif.C09.stepT_fst",
     "OllamaVerif.C09.runStepsT_fst",
     "OllamaVerif.C09.pullRun_traced",
+    "OllamaVerif.C09.exchangeTagsFrom_length",
     # which blobs the new-client push offers (finding F30)
     "OllamaVerif.C09.push_covers_all",
     "OllamaVerif.C09.push_omits_config",
@@ -349,6 +350,53 @@ def model_branch_coverage(ctx, outdir):
                       no_input=True)
 
 
+REQUIRED_PUSH_BRANCHES = [
+    "http.no-answer", "http.307-308-not-followed-body-not-resendable", "http.3xx-with-location-not-a-redirect",
+    "http.3xx-without-location", "http.final-1xx", "http.final-2xx", "http.final-4xx", "http.final-5xx",
+    "http.redirect-limit", "http.307-308-repeats-method-and-body", "http.301-303-keeps-get-head", "http.301-303-becomes-get",
+    "push.post-no-response", "push.post-refused", "push.registry-has-blob", "push.upload-accepted", "push.upload-failed",
+    "push.manifest-accepted", "push.manifest-failed", "push.manifest-suppressed",
+]
+REQUIRED_LEGACY_BRANCHES = [
+    "http.no-answer", "http.3xx-without-location", "http.final-1xx", "http.final-2xx", "http.final-4xx", "http.final-5xx",
+    "http.307-308-repeats-method-and-body", "http.301-303-keeps-get-head", "http.301-303-becomes-get",
+    "legacy.head-registry-has-blob", "legacy.head-error", "legacy.post-without-location", "legacy.post-error",   # legacy.post-not-found is counted, too rare (~10 per run) to gate on
+    "legacy.patch-try-failed-retried", "legacy.patch-tries-exhausted", "legacy.patch-answer-without-location",
+    "legacy.commit-try-failed-retried", "legacy.commit-tries-exhausted", "legacy.layer-committed", "legacy.later-layers-not-started",
+    "legacy.manifest-accepted", "legacy.manifest-failed", "legacy.manifest-suppressed",
+]
+
+
+def push_branch_coverage(ctx, outdir, key, subst, required):
+    """as model_branch_coverage, for the push models: `subst` maps the op word to its coverage command"""
+    import os, subprocess, collections
+    paths = [os.path.join(outdir, n) for n in ("ops.txt", "impl.txt", "model.txt")]
+    if not all(os.path.exists(p) for p in paths):
+        return
+    lines = []
+    with open(paths[0], errors="replace") as fo, open(paths[1], errors="replace") as fi, open(paths[2], errors="replace") as fm:
+        for op, a, b in zip(fo, fi, fm):
+            w = op.split(" ", 1)
+            if w[0] in subst and a == b and len(w) == 2:
+                lines.append(subst[w[0]] + " " + w[1])
+    p = subprocess.run([ctx.oracle_bin()], input="".join(lines), stdout=subprocess.PIPE, text=True)
+    cnt = collections.Counter()
+    for l in p.stdout.splitlines():
+        cnt.update(l.split())
+    prev = ctx.coverage.get(key, {})
+    for k, v in cnt.items():
+        prev[k] = prev.get(k, 0) + v
+    ctx.coverage[key] = dict(sorted(prev.items()))
+    if ctx.replay or required is None:
+        return
+    missing = [b for b in required if prev.get(b, 0) == 0]
+    ctx.coverage[key + "_never_reached"] = missing
+    if missing:
+        ctx.violation("correspondence-coverage", "",
+                      f"branches of the push model ({key}) that no L1-compared case of this run reached: " + ", ".join(missing),
+                      no_input=True)
+
+
 def leg_cases(ctx, leg, n, minimum=1):
     """fail closed: a leg whose driver exits 0 without producing cases proves nothing"""
     ctx.coverage.setdefault("l1_cases_per_leg", {})[leg] = n
@@ -375,6 +423,7 @@ def run(ctx):
         leg_cases(ctx, "client", ctx.l1(outdir, label="client"), 1000)
         l1_inputs(ctx, outdir)
         model_branch_coverage(ctx, outdir)
+        push_branch_coverage(ctx, outdir, "push_model_branches", {"push": "pushcov", "pushm": "pushmcov"}, REQUIRED_PUSH_BRANCHES)
         ctx.classify(ctx.l2(outdir))
     if replay_kind in (None, "chunksums"):
         # the chunksums response parser: real Registry.chunksums iterator vs Chunksums.parseBody
@@ -395,6 +444,7 @@ def run(ctx):
         ctx.read_stats(outdir)
         leg_cases(ctx, "legacy", ctx.l1(outdir, label="legacy"), 300)
         l1_inputs(ctx, outdir)
+        push_branch_coverage(ctx, outdir, "legacy_model_branches", {"legacy": "legacycov"}, None)
         ctx.classify(ctx.l2(outdir))
     if replay_kind in (None, "shared"):
         # two legacy pushes sharing one upload.  First, in a process of its own, the scenario that kills the
@@ -440,6 +490,8 @@ def run(ctx):
         ctx.read_stats(outdir)
         leg_cases(ctx, "seq", ctx.l1(outdir, label="seq"), 400)
         l1_inputs(ctx, outdir)
+        # the legacy model's branches: single pushes + sequential pushes together
+        push_branch_coverage(ctx, outdir, "legacy_model_branches", {"legacy": "legacycov"}, REQUIRED_LEGACY_BRANCHES)
         ctx.classify(ctx.l2(outdir))
     if replay_kind in (None, "handler"):
         import re
